@@ -224,7 +224,11 @@ func (g *G) timeInto(v *Val, label string) {
 		v.Nsec = rapid.SampledFrom([]int64{0, 0, 1, 999, 1000, 999999, 1000000, 500000000, 999999999, 123456789}).Draw(t, label+".ns")
 	}
 	if rapid.IntRange(0, 3).Draw(t, label+".zc") == 0 {
-		v.Zone = rapid.SampledFrom([]int{3600, -3600, 19800, -28800, 50400, 1, -1, 45296}).Draw(t, label+".zone")
+		zones := []int{3600, -3600, 19800, -28800, 50400, 1, -1, 45296}
+		if g.cfg.C08 {
+			zones = zones[:5] // RFC 3339 offsets have minute resolution: the JSON side could not express the instant
+		}
+		v.Zone = rapid.SampledFrom(zones).Draw(t, label+".zone")
 		// keep year within 1..9999 after zone shift
 		if v.Sec+int64(v.Zone) < minSec || v.Sec+int64(v.Zone) > maxSec {
 			v.Zone = 0
